@@ -115,8 +115,23 @@ def evalAppendRace (ins outs : List String) : Verdict :=
   | _, some s, _, _, _, _, _, _, _, _ => .prop "c07_state_finished" s!"appendrace start={s}"
   | _, _, _, _, _, _, _, _, _, _ => .bad "appendrace fields"
 
+/-- the same head learned by gossip and by Head() while its sync runs, then a later head: ends at the newest -/
+def evalDupHead (ins outs : List String) : Verdict :=
+  match kvNat? ins "n2", kv? outs "start", kv? outs "gossip1", kv? outs "gossip2", kvNat? outs "head", kvNat? outs "err", kvNat? outs "finished",
+        kv? outs "syncwait", kv? outs "stored", kvNat? outs "tail" with
+  | some n2, some "ok", some g1, some g2, some head, some err, some fin, some sw, some stored, some tail =>
+    match c03_store_ok stored head tail with
+    | some c => .prop c "duphead"
+    | none =>
+      if g1 != "accept" || g2 != "accept" then .prop "c03_valid_gossip_accepted" s!"gossip1={g1} gossip2={g2}" else
+      if head != n2 then .prop "c07_reaches_target" s!"head={head} newest={n2}" else
+      if err != 0 || fin != 1 || sw != "ok" then .prop "c07_state_finished" s!"err={err} finished={fin} syncwait={sw}" else .ok "duphead"
+  | _, some s, _, _, _, _, _, _, _, _ => .prop "c07_state_finished" s!"duphead start={s}"
+  | _, _, _, _, _, _, _, _, _, _ => .bad "duphead fields"
+
 /-- heads learned while a sync is running must be synced as well -/
 def evalBurst (ins outs : List String) : Verdict :=
+  if kv? ins "kind" == some "duphead" then evalDupHead ins outs else
   if kv? ins "kind" == some "appendrace" then evalAppendRace ins outs else
   match (kv? ins "heads").bind natList?, kvNat? outs "head", kvNat? outs "err", kvNat? outs "finished", kv? outs "syncwait", kv? outs "stored", kvNat? outs "tail" with
   | some heads, some head, some err, some fin, some sw, some stored, some tail =>
